@@ -54,6 +54,7 @@ type GenOpts struct {
 	MoreServices           bool // 2-3 services per file
 	ArgDefaults            bool // default values on function arguments
 	RootRelativeIncludes   bool // files in sub-directories write their includes relative to the program root (needs -i <root>)
+	SameBaseClash          bool // with SameBase: the second same-named include also defines a name of the first (the first include wins)
 	DottedFiles            bool // file names with a dot in the stem (base.v1.thrift next to base.thrift): include prefixes with dots
 	ThrowNamePool          bool // throws fields are named from a tiny pool, so that different exception types meet under one name (C07)
 	TypedefEnumSel         bool // enum values selected through a typedef (Typedef.VALUE): accepted by the analyser, rejected by the Go backend
@@ -1185,7 +1186,81 @@ func Generate(rng *vlib.Rng, o GenOpts) *Program {
 	if !o.UnusedIncl {
 		PruneUnusedIncludes(g.p)
 	}
+	if o.SameBase && o.SameBaseClash {
+		g.sameBaseClash()
+	}
 	return g.p
+}
+
+// sameBaseClash: when exactly one file includes two files with one base name, the later of the two also gets a
+// definition named like one the includer refers to in the earlier one (of another kind, so that a wrong binding
+// shows in the category).  prefix.Name denotes the definition of the first include (AST.thrift: "the first
+// included IDL").
+func (g *gen) sameBaseClash() {
+	for _, f := range g.p.Files {
+		var pair []*File
+		for i, a := range f.Includes {
+			for _, b := range f.Includes[i+1:] {
+				if a.File.Prefix() == b.File.Prefix() && a.File != b.File {
+					pair = []*File{a.File, b.File}
+				}
+			}
+		}
+		if pair == nil {
+			continue
+		}
+		// nobody else may include both (in whatever order)
+		for _, x := range g.p.Files {
+			if x != f && x.IncludeIndex(pair[0]) >= 0 && x.IncludeIndex(pair[1]) >= 0 {
+				return
+			}
+		}
+		var refd []*Def
+		seen := map[*Def]bool{}
+		var ty func(t *Type)
+		ty = func(t *Type) {
+			if t == nil {
+				return
+			}
+			if t.Ref != nil && t.Ref.File == pair[0] && t.Qual && !seen[t.Ref] && (t.Ref.Kind == KEnum || t.Ref.Kind.IsStructLike()) {
+				seen[t.Ref] = true
+				refd = append(refd, t.Ref)
+			}
+			ty(t.Key)
+			ty(t.Elem)
+		}
+		for _, d := range f.Defs {
+			ty(d.Type)
+			for _, fl := range d.Fields {
+				ty(fl.Type)
+			}
+			for _, fn := range d.Funcs {
+				ty(fn.Ret)
+				for _, a := range fn.Args {
+					ty(a.Type)
+				}
+				for _, a := range fn.Throws {
+					ty(a.Type)
+				}
+			}
+		}
+		for _, d := range refd {
+			if pair[1].Find(d.Name) != nil || g.used[pair[1]][normName(d.Name)] {
+				continue
+			}
+			c := &Def{Name: d.Name, File: pair[1]}
+			if d.Kind == KEnum {
+				c.Kind = KStruct
+				c.Fields = []*Field{{ID: 1, ExplicitID: true, Type: base("i32"), Name: "shadow"}}
+			} else {
+				c.Kind = KEnum
+				c.EnumVals = []*EnumVal{{Name: "SHADOW_" + strings.ToUpper(d.Name), Explicit: true, Value: 1}}
+			}
+			pair[1].Defs = append(pair[1].Defs, c)
+			return
+		}
+		return
+	}
 }
 
 func relPath(from, to string) string {
